@@ -20,7 +20,7 @@ RULE = (
     "ssl_context {none, create_urllib3_context(), same with check_hostname off, stdlib create_default_context with our CA} x "
     "CA source {ca_certs file, ca_cert_data, none = the OS default store, which SSL_CERT_FILE makes hold the other authority only} x issuer {trusted authority, the other authority} x certificate names {exact, mismatch, wildcard, "
     "IPv4, IPv6, commonName only} x requested host form {lower, UPPER, trailing dot, IPv4, [IPv6], [IPv6%25zone]} x backend "
-    "{ssl, pyOpenSSL} x path {direct, http-proxy CONNECT tunnel, https-proxy tunnel = real TLS in TLS with the proxy certificate ok / untrusted / wrong name and the proxy context own / the very object used for the destination, with or without proxy_assert_hostname}. Every cell is a REAL TLS handshake (trustme certificates) over "
+    "{ssl, pyOpenSSL} x path {direct, http-proxy CONNECT tunnel, https-proxy tunnel = real TLS in TLS with the proxy certificate ok / untrusted / wrong name and the proxy context own / the very object used for the destination, with or without proxy_assert_hostname}; direct cells optionally through a PoolManager that has just served the same origin with weaker per-request settings (pool_kwargs cert_reqs=CERT_NONE / assert_hostname=False). Every cell is a REAL TLS handshake (trustme certificates) over "
     "socket.socketpair() against an in-process server thread that records whether any application byte arrived after the "
     "handshake. Reference decision table (written from the documentation): which of chain / pin / hostname checks the settings "
     "demand and whether the peer passes them. Non-trivial = at least one demanded check fails, or cert_reqs is not REQUIRED."
@@ -208,18 +208,19 @@ class Peer:
                 self.error = repr(e)
                 return
             try:
-                buf = b""
-                while b"\r\n\r\n" not in buf:
-                    chunk = tls.recv(4096)
-                    if not chunk:
+                while True:
+                    # (requests without a body; every one is answered, so that a kept-alive connection can be used again)
+                    buf = b""
+                    while b"\r\n\r\n" not in buf:
+                        chunk = tls.recv(4096)
+                        if not chunk:
+                            break
+                        buf += chunk
+                    self.app_bytes += buf
+                    if b"\r\n\r\n" not in buf:
                         break
-                    buf += chunk
-                self.app_bytes = buf
-                if b"\r\n\r\n" in buf:
                     # keep-alive: http.client must not close (and thereby reset) the connection before it is inspected
                     tls.sendall(b"HTTP/1.1 200 OK\r\nContent-Length: 2\r\n\r\nok")
-                    while tls.recv(4096):
-                        pass
             except (ssl.SSLError, OSError) as e:
                 self.error = repr(e)
             finally:
@@ -301,6 +302,8 @@ def _validate(case):
         raise core.InvalidCase
     if case.get("pcert", "ok") not in PCERT or (case.get("pcert", "ok") != "ok" and case["path"] != "tunnel-tls"):
         raise core.InvalidCase
+    if case.get("warm") not in (None, "cert-none", "ah-false") or (case.get("warm") and (case["path"] != "direct" or case["backend"] != "ssl" or case["ctx"] != "none")):
+        raise core.InvalidCase
     pm = case.get("pmode", "own")
     if pm not in PMODES or (pm != "own" and case["path"] != "tunnel-tls"):
         raise core.InvalidCase
@@ -379,6 +382,7 @@ def run_case(case) -> list[Failure]:
     result = exc = None
     is_verified = None
     warned = False
+    n_warm = w_mark = 0
     try:
         with warnings.catch_warnings(record=True) as wlist:
             warnings.simplefilter("always")
@@ -396,6 +400,17 @@ def run_case(case) -> list[Failure]:
                 elif tunnel:
                     obj = urllib3.ProxyManager("http://proxy.test:3128", retries=False, **kw)
                     url = f"https://{host}:8443/secret-path"
+                elif case.get("warm"):
+                    # one PoolManager serves the judged request AFTER a request to the same origin that asked, through
+                    # pool_kwargs, for weaker settings: the judged request must not travel under those
+                    obj = urllib3.PoolManager(retries=False, **kw)
+                    url = f"https://{host}:8443/secret-path"
+                    wkw = {"cert_reqs": ssl.CERT_NONE, "assert_hostname": False} if case["warm"] == "cert-none" else {"assert_hostname": False}
+                    try:
+                        obj.connection_from_url(url, pool_kwargs=wkw).urlopen("GET", "/warmup", retries=False).data
+                    except Exception:  # noqa: BLE001 - whatever the weaker request does is not judged
+                        pass
+                    n_warm, w_mark = len(peers), len(wlist)
                 else:
                     obj = urllib3.HTTPSConnectionPool(host.strip("[]") if False else host, 8443, retries=False, **kw)
                     url = "/secret-path"
@@ -414,8 +429,11 @@ def run_case(case) -> list[Failure]:
                 finally:
                     try:
                         r = conn = None
-                        if tunnel:
-                            obj.connection_from_url(url).close()  # clear() alone leaves the sockets to the garbage collector
+                        if tunnel or case.get("warm"):
+                            for k0 in list(obj.pools.keys()):
+                                pl = obj.pools._container.get(k0)
+                                if pl is not None:
+                                    pl.close()  # clear() alone leaves the sockets to the garbage collector
                             obj.clear()
                         else:
                             obj.close()
@@ -423,14 +441,16 @@ def run_case(case) -> list[Failure]:
                         pass
             except (ValueError, TypeError) as e:  # constructing the pool itself rejected the configuration
                 exc = e
-            warned = any(issubclass(x.category, ue.InsecureRequestWarning) for x in wlist)
+            warned = any(issubclass(x.category, ue.InsecureRequestWarning) for x in wlist[w_mark:])
     finally:
         uconn.create_connection = saved
         ucn.connection.create_connection = saved2
     for p in peers:
         p.join()
     app = b"".join(p.app_bytes for p in peers)
-    client_open = [p for p in peers if p.client.fileno() != -1]
+    if case.get("warm") and b"secret-path" not in app:
+        app = b""  # only the warm-up request was transmitted
+    client_open = [p for p in peers[n_warm:] if p.client.fileno() != -1]
 
     def brief():
         return (f"{ {k: v for k, v in case.items() if k != 'kind'} } reference={ref} -> {('status %s' % (result,)) if result else type(exc).__name__ + ': ' + str(exc)[:160]} "
@@ -506,7 +526,7 @@ def nontrivial(case):
 
 def classes(case):
     r = reference(case, False)
-    out = ["backend:" + case["backend"], "path:" + case["path"], "pcert:" + case.get("pcert", "ok"), "pmode:" + case.get("pmode", "own"), "cert_reqs:" + r["eff"], "ctx:" + case["ctx"], "san:" + case["san"], "host:" + case["hostform"], "fp:" + case["fp"], "ah:" + case["ah"], "sh:" + case["sh"], "ca:" + case["ca"], "issuer:" + case["issuer"]]
+    out = ["backend:" + case["backend"], "path:" + case["path"], "pcert:" + case.get("pcert", "ok"), "pmode:" + case.get("pmode", "own"), "warm:" + str(case.get("warm")), "cert_reqs:" + r["eff"], "ctx:" + case["ctx"], "san:" + case["san"], "host:" + case["hostform"], "fp:" + case["fp"], "ah:" + case["ah"], "sh:" + case["sh"], "ca:" + case["ca"], "issuer:" + case["issuer"]]
     if r["config_error"]:
         out.append("config-error")
     return out
@@ -545,6 +565,9 @@ def pairwise_core(backend):
         for pc in PCERT[1:]:
             for cr, ctx, issuer, san in itertools.product(CERT_REQS, CONTEXTS, ISSUER, ("exact", "mismatch")):
                 yield dict(base, path="tunnel-tls", pcert=pc, cert_reqs=cr, ctx=ctx, issuer=issuer, san=san)
+        for warm in ("cert-none", "ah-false"):
+            for cr, ca, issuer, san, sh in itertools.product(("unset", "CERT_REQUIRED", "CERT_OPTIONAL"), ("ca_certs", "ca_cert_data"), ISSUER, ("exact", "mismatch", "cn-only", "wildcard"), ("unset", "mismatch")):
+                yield dict(base, warm=warm, cert_reqs=cr, ca=ca, issuer=issuer, san=san, sh=sh)
         for pmode in PMODES[1:]:
             for cr, ctx, issuer, san, ah, pc in itertools.product(("unset", "CERT_OPTIONAL"), CONTEXTS[1:] if pmode.startswith("shared") else CONTEXTS, ISSUER, ("exact", "mismatch", "cn-only"), ("unset", "false", "mismatch"), PCERT):
                 yield dict(base, path="tunnel-tls", pcert=pc, pmode=pmode, cert_reqs=cr, ctx=ctx, issuer=issuer, san=san, ah=ah)
@@ -604,7 +627,7 @@ def run_shard(spec):
 
             strat = st.fixed_dictionaries({"kind": st.just("tls"), "cert_reqs": st.sampled_from(CERT_REQS), "ah": st.sampled_from(ASSERT_HOSTNAME), "fp": st.sampled_from(FINGERPRINT + ["unset", "unset"]),
                                            "sh": st.sampled_from(SERVER_HOSTNAME), "ctx": st.sampled_from(CONTEXTS), "ca": st.sampled_from(CA_SOURCE), "issuer": st.sampled_from(ISSUER + ["trusted"]),
-                                           "san": st.sampled_from(SAN), "hostform": st.sampled_from(HOSTFORM), "path": st.sampled_from(PATHS), "backend": st.just(backend), "pcert": st.sampled_from(["ok", "ok", "ok", "untrusted", "wrongname"]), "pmode": st.sampled_from(PMODES)}).map(lambda c: dict(c, pcert="ok", pmode="own") if c["path"] != "tunnel-tls" else (dict(c, pmode=c["pmode"].replace("shared", "own")) if c["pmode"].startswith("shared") and (c["ctx"] == "none" or (c["ca"] == "none" and c["ctx"] != "stdlib-default")) else c))
+                                           "san": st.sampled_from(SAN), "hostform": st.sampled_from(HOSTFORM), "path": st.sampled_from(PATHS), "backend": st.just(backend), "pcert": st.sampled_from(["ok", "ok", "ok", "untrusted", "wrongname"]), "pmode": st.sampled_from(PMODES), "warm": st.sampled_from([None, None, None, "cert-none", "ah-false"])}).map(lambda c: c if (c["path"] == "direct" and c["backend"] == "ssl" and c["ctx"] == "none") else {k: v for k, v in c.items() if k != "warm"}).map(lambda c: dict(c, pcert="ok", pmode="own") if c["path"] != "tunnel-tls" else (dict(c, pmode=c["pmode"].replace("shared", "own")) if c["pmode"].startswith("shared") and (c["ctx"] == "none" or (c["ca"] == "none" and c["ctx"] != "stdlib-default")) else c))
 
             def body(case):
                 if coherent(case):
